@@ -81,6 +81,13 @@ CHECKS.update({
   text="Bounded-exhaustive differential testing: TLC enumerates every template of a frozen grammar of the stable Jinja2 core (lexer-, structure- and expression-centred families); each is rendered by the bundled engine and by stock Jinja2 3.1.6 under all whitespace settings, and a TLA+ trace spec judges 'same output or both fail'. The semantics of the auto-indent marker, assert and ifuses are TLA+ operators: do_lineprefix and the UseQuery parse loop are model-checked against them and renderings of all placements/chains are validated. Jinja2 itself is not modelled.",
   note="Stock Jinja2 3.1.6 is the executable reference; TLC and the JinjaRel* specs; the grammar is frozen to productions where 2.11.dev and 3.1.6 agree (skew register in vf/props/c19.py)."),
 })
+
+CHECKS.update({
+ "C10": dict(cat="model_checking", ref="DESIGN.md §6 C10",
+  technique="TLA+ model of the generator's cross-file state (name generator, limiter counter, Jinja constant folding and import cache, memoized dependency builder with PyDSDL's equality key); TLC refinement with four negative controls; predicted-defect and enumerated histories replayed; recorded genfile events trace-validated",
+  text="I=>P is exhaustive over bounded subsets / processing orders / reuse histories (3-4 types, <=3 runs, fresh or reused LanguageContext and generator, new process); every violating history of the four negative controls and 7k-75k histories of the repaired model are replayed through the real generator, and every file written in ~600 (quick) / 5k (thorough) multi-run single-interpreter scenarios (whole namespace vs closed subsets vs permuted order vs reused objects vs edited definitions, c/cpp/py/html, built-in and user templates, line post-processors on/off) is judged by the P-layer memo: two files for the same (type, templates, options) must be identical.",
+  note=TB + "passive harness post-processors; gzip clock frozen and one directory per scenario (those are C07's variables). Not exercised: the nnvg CLI, namespace and support files."),
+})
 NOT_YET = {}
 props = [json.loads(l) for l in open(V / "properties.jsonl")]
 checks, na = [], []
